@@ -1923,8 +1923,11 @@ class Compiler:
     def _leave_assignment(self, names):
         for name in names:
             yield from template(
-                "if BACKUP is __marker: del econtext[KEY]\n"
-                "else:                 econtext[KEY] = BACKUP",
+                "if BACKUP is __marker:\n"
+                "    del econtext[KEY]\n"
+                "    if KEY in rcontext: econtext[KEY] = rcontext[KEY]\n"
+                "else:\n"
+                "    econtext[KEY] = BACKUP",
                 BACKUP=identifier("backup_%s" % name, id(names)),
                 KEY=ast.Constant(str(name)),
             )
